@@ -78,7 +78,7 @@ func (mm *MMapRWManager) WriteAt(b []byte, off int64) (n int, err error) {
 func (mm *MMapRWManager) ReadAt(b []byte, off int64) (n int, err error) {
 	if mm.m == nil {
 		return 0, ErrUnmappedMemory
-	} else if off >= int64(len(mm.m)) || off < 0 {
+	} else if off > int64(len(mm.m)) || off < 0 || (off == int64(len(mm.m)) && len(b) > 0) {
 		return 0, ErrIndexOutOfBound
 	}
 
